@@ -180,3 +180,44 @@ Theorem C20_run_from_source : forall (plen : pval -> nat) (d : dir) (ops : list 
     st = fst (end_tail (fst (startup d)) (content d Live) ops).
 Proof. exact run_from_source. Qed.
 Print Assumptions C20_run_from_source.
+
+(* ---------- bufio.ReadString in the directory reader: the stated contract is now a theorem ----------
+   Model/DirReaderIR.v interprets  x, err := r.ReadString(delim)  by a contract on the bytes the reader has
+   not delivered yet ([d_src]: the file from the saved offset on): [dcut] finds the delimiter -> the bytes up
+   to and including it with a nil error, the rest stays; none -> all remaining bytes with io.EOF, nothing
+   stays.  Model/Bufio.v is bufio.Reader itself at array level (see Props/C12.v, the C12_bufio theorems).  Here:
+   [file_reader src b] -- b is a bufio reader (any buffer size, any state) over a reader that ends with
+   io.EOF and never serves 100 empty reads in a row, and the bytes b has still to return are src.
+   bufio.NewReaderSize over the file from the offset on is such a reader, for every way read(2) cuts those
+   bytes into pieces cs; and every ReadString call makes exactly the interpreter's step. *)
+From AM Require Import Model.Bufio Proofs.BufioLemmas Proofs.BufioDirReader.
+
+Theorem C20_bufio_new_reader : forall (size : nat) (cs : list str),
+  progress_ok cs -> file_reader (concat cs) (new_reader_size (eof_source cs) size).
+Proof. exact file_reader_new. Qed.
+Print Assumptions C20_bufio_new_reader.
+
+Theorem C20_bufio_read_string_contract : forall (d : ascii) (src : str) (b : reader),
+  file_reader src b ->
+  match dcut d src with
+  | Some (l, rest) => exists b', read_string_b d b = RSOk l None b' /\ file_reader rest b'
+  | None => exists b', read_string_b d b = RSOk src (Some EEOF) b' /\ file_reader [] b'
+  end.
+Proof. exact file_reader_read_string. Qed.
+Print Assumptions C20_bufio_read_string_contract.
+
+(* readLines as a whole on the bufio model (ctx never done): the lines and numBytesRead of [read_lines],
+   error nil -- for every buffer size and every cutting of the bytes; so a later read from the saved offset
+   (off + numBytesRead) starts exactly after the last complete line *)
+Theorem C20_bufio_read_lines : forall (size : nat) (cs : list str),
+  progress_ok cs ->
+  bufio_read_lines size (eof_source cs) = (fst (read_lines (concat cs)), snd (read_lines (concat cs)), RLNil).
+Proof. exact bufio_read_lines_eq. Qed.
+Print Assumptions C20_bufio_read_lines.
+
+(* "ab\ncd\nxy" read in pieces of 1, 4 and 3 bytes through a 16-byte buffer: two lines, 6 bytes counted *)
+Example C20_bufio_example :
+  progress_ok [s2l "a"; s2l "b" ++ [nl] ++ s2l "cd"; [nl] ++ s2l "xy"] /\
+  bufio_read_lines 16 (eof_source [s2l "a"; s2l "b" ++ [nl] ++ s2l "cd"; [nl] ++ s2l "xy"]) =
+  ([s2l "ab"; s2l "cd"], 6, RLNil).
+Proof. split; [apply nonempty_progress_ok; repeat constructor; discriminate|vm_compute; reflexivity]. Qed.
